@@ -61,6 +61,22 @@ theorem stepEqn_sound (I : Interp) (hyps d : Array Eqn) (hh : AllHold I hyps) (h
       subst ho
       simp only [Holds, eval, argsOk_sound I d hd as bs js ha]
     · simp at h
+  | bnot j =>
+    simp only [stepEqn] at h
+    split at h
+    · rename_i a c hj
+      have hac := hd j (a, c) hj
+      simp only [Holds] at hac
+      split at h
+      · rename_i hc; subst hc
+        simp at h; subst h
+        simp only [Holds, eval, evalList, applyOp, hac, fls, tru, Val.toBool]; rfl
+      · split at h
+        · rename_i hc; subst hc
+          simp at h; subst h
+          simp only [Holds, eval, evalList, applyOp, hac, fls, tru, Val.toBool]; rfl
+        · simp at h
+    · simp at h
 
 theorem allHold_push (I : Interp) (d : Array Eqn) (e : Eqn) (hd : AllHold I d) (he : Holds I e) :
     AllHold I (d.push e) := by
